@@ -94,7 +94,14 @@ VARIES = (
     "refusal right before a link failure, faults at every exchange of a repair through the "
     "bootloader, headers of 64 KiB / 1 MiB / 16 MiB, the Ethereum app of `signapp eth` honest "
     "and dishonest, every command once on every platform, version bytes of 128 and more, "
-    "status words over every transport")
+    "status words over every transport, RLP strings where lists are expected, repairs on SGX "
+    "that go through the unlock dialogue with error statuses at its exchanges, names that are "
+    "substrings / case variants of reserved names, certificates with CA=FALSE or no basic "
+    "constraints, operator key files in hybrid notation, TCP peers that close after taking a "
+    "command, two PIN retries left, SIGTERM with clients queued, devices answering a query "
+    "with another item's well-formed answer, special-looking outpoints, data of little variety "
+    "(repeated bytes, identical areas, identical pages), targets and names of mixed JSON types, "
+    "hashes with tabs and newlines, output files written over longer stale ones")
 
 IDEAS = (
     "a code path only reached through a rarely used command-line option, environment variable or "
